@@ -10,11 +10,12 @@ from .interp import Interp, Obj, Cls, Func, BoundMethod, LoopSpec, EnumMember
 
 
 class Contract(object):
-    def __init__(self, name, fn, targets, configs=None, timeout_ms=None, max_paths=600, tier='quick', doc=''):
+    def __init__(self, name, fn, targets, configs=None, timeout_ms=None, max_paths=600, tier='quick', doc='', bounded=None):
         self.name, self.fn, self.targets = name, fn, targets
         self.configs = configs or [dict(name='')]
         self.timeout_ms, self.max_paths, self.tier, self.doc = timeout_ms, max_paths, tier, doc
         self.replay = None
+        self.bounded = bounded      # text of the bound if this contract is a BOUNDED stand-in (never counted as proved)
 
 
 class Registry(object):
